@@ -32,7 +32,7 @@ macro_rules! stats_struct {
 }
 stats_struct!(
     bodies, applies, deliveries, postponed, max_postponed_one_target, nested_replay, skipped_dead, skipped_dead_postponed, optional_taken, optional_skipped, polled_events, polled_in_tree, polled_reactions, payloads, payload_zero_listeners, payload_abort_release, doomed_insts, once_fired, once_retrigger_after_fire, revokes_applied, revoke_mid_dispatch, kills, kill_self, err_returns, excl_bodies, registrations, reg_dead_entity, slot_respawn, max_depth, roots, multi_kind_same_tree, sibling_reorder, frames, guaranteed_gc, guaranteed_poll, a1_ambiguous, ewr_bodies, ewr_nodata_ok, inserts_dead_at_apply, setifneq_equal, setifneq_diff, removal_reinsert_removal, sig_zero, entity_recursive_despawn, fifo_pairs_checked, sys_calls, reactors_per_key_ge7,
-    probes, ev_total, replayed, sys_recursive, acc_ops, single_acc, app_setup_again, bulk_collected, max_bulk, ewr_readd, res_removed, res_trigger_while_absent
+    probes, ev_total, replayed, sys_recursive, acc_ops, single_acc, app_setup_again, bulk_collected, max_bulk, ewr_readd, res_removed, res_trigger_while_absent, excl_flushed_in_body
 );
 
 #[derive(Clone, Debug)]
@@ -156,6 +156,10 @@ struct Delivery
     seq: u64,
     /// when postponed: the run number of the target's execution that blocked it
     blocked_by: u32,
+    /// issue number of the op that caused it
+    iss: u64,
+    /// it was (or may have been confused with) one of several indistinguishable pending deliveries: not judged for order
+    tainted: bool,
 }
 
 #[derive(Clone, Debug)]
@@ -265,13 +269,19 @@ pub struct Checker<'a>
     doomed_ents: Vec<EntId>,
     resolve_uncertain: Vec<RegId>,
     /// per (sender, target): last consumed sequence number
-    fifo: HashMap<((u8, u32), Inst), u64>,
+    fifo: HashMap<((u8, u32), Inst), (u64, bool)>,
     gc_guaranteed_this_step: bool,
     in_direct_step: bool,
     /// bulk auto-despawn scenario: entities whose signals are all dropped / entities with a clone still held / alive now
     bulk_released: u32,
     bulk_held: u32,
     bulk_alive: i64,
+    /// commands queued on the world's command queue by exclusive bodies that are still executing: (uid, op, sender)
+    wq: std::collections::VecDeque<(u32, Issued, (u8, u32))>,
+    /// issue order of ops (C12 speaks about the order in which a run *sent* things)
+    iss_counter: u64,
+    cur_iss: u64,
+    iss_of: HashMap<u32, u64>,
     pub sys: SysModel,
 }
 
@@ -299,7 +309,7 @@ impl<'a> Checker<'a>
             tokens: vec![None; prog.insts.len()], res: [0, 0, 0], res_t_present: true, payloads: HashMap::new(), pending_immediate_drop: None,
             polled: Vec::new(), postponed: Vec::new(), stack: Vec::new(), tree_depth: 0, seq: 0, sender: (DRIVER, 0),
             wr_keys: [Vec::new(), Vec::new()], sigs: vec![(None, 0); 4], doomed_ents: Vec::new(), resolve_uncertain: Vec::new(), fifo: HashMap::new(),
-            gc_guaranteed_this_step: false, in_direct_step: false, bulk_released: 0, bulk_held: 0, bulk_alive: 0, sys: Default::default(),
+            gc_guaranteed_this_step: false, in_direct_step: false, bulk_released: 0, bulk_held: 0, bulk_alive: 0, wq: Default::default(), iss_counter: 0, cur_iss: 0, iss_of: HashMap::new(), sys: Default::default(),
         }
     }
 
@@ -790,7 +800,7 @@ impl<'a> Checker<'a>
     {
         self.seq += 1;
         self.stats.deliveries += 1;
-        Delivery { target, cause, optional, holds, sender: self.sender, seq: self.seq, blocked_by: 0 }
+        Delivery { target, cause, optional, holds, sender: self.sender, seq: self.seq, blocked_by: 0, iss: self.cur_iss, tainted: false }
     }
 
     fn removal_listeners_now(&self, ent: EntId, c: C) -> Vec<Inst>
@@ -998,8 +1008,12 @@ impl<'a> Checker<'a>
     /// Nested invocations at a poll point of the current invocation (they can only be polled reactions).
     fn poll_point(&mut self) -> Res<()>
     {
-        while self.at_enter()? { self.invocation(None, None)?; }
-        Ok(())
+        loop
+        {
+            if self.at_enter()? { self.invocation(None, None)?; continue; }
+            if !self.wq.is_empty() { let n = self.wq.len(); self.drain_wq()?; if self.wq.len() < n { continue; } }
+            return Ok(());
+        }
     }
 
     /// One invocation of the system-command runner, from its `Enter` event (at the cursor) to its `Exit`.
@@ -1064,6 +1078,9 @@ impl<'a> Checker<'a>
                     let mut order = cands.clone();
                     order.sort_by_key(|i| (std::cmp::Reverse(self.postponed[*i].blocked_by), !admissible(self, *i), self.postponed[*i].seq));
                     let hit = order.first().copied();
+                    // several candidates that carry no payload are indistinguishable: which one ran is a guess, none of them is
+                    // judged for order afterwards
+                    if cands.len() > 1 { for c in &cands { if self.postponed[*c].cause.payload().is_none() { self.postponed[*c].tainted = true; } } }
                     if let Some(i) = hit
                     {
                         let mut p = self.postponed.remove(i);
@@ -1236,15 +1253,18 @@ impl<'a> Checker<'a>
         // per-sender FIFO (C12)
         // (only deliveries that carry a unique payload id are distinguishable; manual runs and trigger reactions of one
         // kind are interchangeable, so their relative order is not observable)
-        if d.sender.0 != 0xFE && d.cause.payload().is_some()
+        if d.sender.0 != 0xFE && !d.tainted
         {
-            self.stats.fifo_pairs_checked += 1;
-            let last = self.fifo.entry((d.sender, d.target)).or_insert(0);
-            if d.seq < *last
+            let has_payload = d.cause.payload().is_some();
+            if has_payload { self.stats.fifo_pairs_checked += 1; }
+            let last = self.fifo.entry((d.sender, d.target)).or_insert((0, false));
+            // judged in *issue* order: an exclusive body may queue an event and then apply a command directly; the direct one was
+            // still sent later. At least one of the two must carry a payload (see above).
+            if d.iss < last.0 && (has_payload || last.1)
             {
                 fail!(self, "C12", "fifo-violated", &["C03", "C09"], "instance {inst} processed {:?} after a delivery the same run sent later", d.cause);
             }
-            *last = d.seq;
+            if d.iss >= last.0 { *last = (d.iss, has_payload); }
         }
         let before = self.insts[ti].kinds_this_tree;
         self.insts[ti].kinds_this_tree |= d.cause.kind_bit();
@@ -1395,21 +1415,41 @@ impl<'a> Checker<'a>
         let mut out = Vec::new();
         if excl
         {
+            // in script order: `Now` ops act immediately, the rest goes on the world's command queue and is applied at the next
+            // flush -- the end of the body at the latest, but nearly every world operation flushes that queue first
+            let mut mine: Vec<u32> = Vec::new();
+            let mut err = false;
             for (idx, op) in ops.iter().enumerate()
             {
+                let u = uid(issuer, run, idx);
+                if matches!(op, Op::ReturnErr) { err = true; break; }
                 if let Op::Now(w) = op
                 {
-                    let u = uid(issuer, run, idx);
                     match self.peek()? { Some(Ev::Now(x)) if *x == u => self.advance()?, _ => { self.unexpected("immediate op")?; } }
+                    self.iss_counter += 1;
+                    let saved = self.cur_iss;
+                    self.cur_iss = self.iss_counter;
                     self.exec_wop(w, u)?;
+                    self.drain_wq()?;
+                    self.cur_iss = saved;
                     self.expect_tolerant(|e| matches!(e, Ev::NowEnd(x) if *x == u), "end of immediate op")?;
                 }
+                else
+                {
+                    let is = self.issue(op, u, excl)?;
+                    self.wq.push_back((u, is, self.sender));
+                    mine.push(u);
+                }
             }
+            // what no flush inside the body has applied is applied after the body returns
+            let mut rest = std::collections::VecDeque::new();
+            while let Some(e) = self.wq.pop_front() { if mine.contains(&e.0) { out.push((e.0, e.1)); } else { rest.push_back(e); } }
+            self.wq = rest;
+            return Ok((out, err));
         }
         for (idx, op) in ops.iter().enumerate()
         {
             let u = uid(issuer, run, idx);
-            if excl && matches!(op, Op::Now(_)) { continue; }
             if matches!(op, Op::ReturnErr) { return Ok((out, true)); }
             let is = self.issue(op, u, excl)?;
             out.push((u, is));
@@ -1417,8 +1457,38 @@ impl<'a> Checker<'a>
         Ok((out, false))
     }
 
+    /// Applies queued commands of executing exclusive bodies whose application markers are next in the trace (a flush of the
+    /// world's command queue happened here).
+    fn drain_wq(&mut self) -> Res<()>
+    {
+        loop
+        {
+            if self.wq.is_empty() { return Ok(()); }
+            let Some(Ev::Apply(x)) = self.peek()? else { return Ok(()) };
+            let x = *x;
+            // the commands of one body are applied in the order queued; how the queues of nested exclusive bodies interleave
+            // when one flush runs inside another is Bevy's business
+            let Some(i) = self.wq.iter().position(|(u, _, _)| *u == x) else { return Ok(()) };
+            let sender = self.wq[i].2;
+            if self.wq.iter().take(i).any(|(_, _, s)| *s == sender) { return Ok(()); }
+            let (u, is, sender) = self.wq.remove(i).unwrap();
+            self.advance()?;
+            self.stats.applies += 1;
+            self.stats.excl_flushed_in_body += 1;
+            let (saved_sender, saved_iss) = (self.sender, self.cur_iss);
+            self.sender = sender;
+            self.cur_iss = self.iss_of.get(&u).copied().unwrap_or(0);
+            self.apply(u, is)?;
+            self.sender = saved_sender;
+            self.cur_iss = saved_iss;
+            self.expect_tolerant(|e| matches!(e, Ev::ApplyEnd(x) if *x == u), &format!("end of op {u:#x}"))?;
+        }
+    }
+
     fn issue(&mut self, op: &Op, u: u32, excl: bool) -> Res<Issued>
     {
+        self.iss_counter += 1;
+        self.iss_of.insert(u, self.iss_counter);
         let slot = |me: &Self, s: Slot| me.slots[s as usize];
         let known = |me: &Self, i: Inst| me.insts[i as usize].known.then_some(i);
         Ok(match op
@@ -1553,6 +1623,7 @@ impl<'a> Checker<'a>
                 _ => {}
             }
             if self.at_enter()? { self.invocation(None, None)?; continue; }
+            if !self.wq.is_empty() { let n = self.wq.len(); self.drain_wq()?; if self.wq.len() < n { continue; } }
             return self.unexpected(what);
         }
     }
@@ -1577,7 +1648,10 @@ impl<'a> Checker<'a>
             }
             self.expect_tolerant(|e| matches!(e, Ev::Apply(x) if *x == u), &format!("application of op {u:#x}"))?;
             self.stats.applies += 1;
+            let saved_iss = self.cur_iss;
+            self.cur_iss = self.iss_of.get(&u).copied().unwrap_or(0);
             self.apply(u, is)?;
+            self.cur_iss = saved_iss;
             self.expect_tolerant(|e| matches!(e, Ev::ApplyEnd(x) if *x == u), &format!("end of op {u:#x}"))?;
             // a top-level command has completed together with every tree it started
             if self.tree_depth == 0 { self.payload_deadline("the end of the top-level command that sent it", false)?; }
@@ -1790,6 +1864,8 @@ impl<'a> Checker<'a>
     /// Direct world operations (driver steps, `Now` ops of exclusive bodies, `Direct` commands).
     fn exec_wop(&mut self, w: &WOp, u: u32) -> Res<()>
     {
+        // (nearly every world operation flushes the world's command queue before it acts)
+        if !self.wq.is_empty() { self.drain_wq()?; }
         let slot = |me: &Self, s: Slot| me.slots[s as usize];
         match w
         {
@@ -2098,6 +2174,8 @@ impl<'a> Checker<'a>
                     let u = uid(DRIVER, i as u32, 0);
                     match self.peek()? { Some(Ev::Now(x)) if *x == u => self.advance()?, _ => { self.unexpected("direct step")?; } }
                     self.sender = (DRIVER, i as u32);
+                    self.iss_counter += 1;
+                    self.cur_iss = self.iss_counter;
                     self.in_direct_step = true;
                     let r = self.exec_wop(w, u);
                     self.in_direct_step = false;
